@@ -33,7 +33,7 @@ def main():
     ]
     if c.setup():
         for label, kw in configs(c.tier):
-            c.run(label, 'rsym.hr', 'Determinism', kw, required_witnesses=('several iteration orders explored',), time_cap=200 if c.tier == 'quick' else 2400)
+            c.run(label, 'rsym.hr', 'Determinism', kw, required_witnesses=('several iteration orders explored',), time_cap=200 if c.tier == 'quick' else 900)
     c.finish(bounds={'skeletons': [l for l, _ in configs(c.tier)], 'map_entries': '<= 4 per HashMap', 'names': 'adversarial alphabets: %s, %s' % (COLL, COLL2)},
              outside=['documents outside the skeletons', 'threads / processes as such (the replay runs fresh hash seeds natively only for counterexamples)'],
              trusted=['rsym + HashMap contract model', 'z3', 'tools/replay'],
